@@ -142,6 +142,23 @@ static V_tok V_DIVX (V_tok a, V_tok d)          /* a / d for d > 0 dividing a */
 void __gmpz_gcd (mpz_ptr g, mpz_srcptr a, mpz_srcptr b) { V_tok t = V_GCD (V_val (a), V_val (b)); V_setval (g, t); }
 void __gmpz_divexact_gcd (mpz_ptr q, mpz_srcptr a, mpz_srcptr d) { V_tok t = V_DIVX (V_val (a), V_val (d)); V_setval (q, t); }
 void __gmpz_mul (mpz_ptr w, mpz_srcptr u, mpz_srcptr v) { V_tok t = V_MUL (V_val (u), V_val (v)); V_setval (w, t); }
+/* extended gcd (ASSUMED): g = gcd(a,b) >= 0, cofactor s with s*a == g (mod b) and |s| < |b| (manual: |s| < |b|/(2g) except in degenerate cases);
+   the third result is not requested by the glue under proof (t == NULL) */
+V_tok __CPROVER_uninterpreted_cofs (V_tok, V_tok);
+void __gmpz_gcdext (mpz_ptr g, mpz_ptr s, mpz_ptr t, mpz_srcptr a, mpz_srcptr b)
+{
+  __CPROVER_assert (t == (mpz_ptr) 0, "glue passes no second cofactor");
+  V_tok va = V_val (a), vb = V_val (b), vg = V_GCD (va, vb), vs = __CPROVER_uninterpreted_cofs (va, vb);
+  __CPROVER_assume (vb == 0 || (-V_AB (vb) < vs && vs < V_AB (vb)));
+  V_setval (g, vg); V_setval (s, vs);
+}
+void __gmpz_divexact (mpz_ptr q, mpz_srcptr a, mpz_srcptr d)
+{
+  V_tok va = V_val (a), vd = V_val (d);
+  __CPROVER_assert (vd != 0, "[C02] divexact by a non-zero divisor");
+  V_tok t = V_DIVX (va, V_AB (vd));
+  V_setval (q, vd < 0 ? -t : t);
+}
 /* temporaries: one limb of storage (the limb contents are abstract), value 0, released by mpz_clear (leak check) */
 void __gmpz_init (mpz_ptr x) { x->_mp_alloc = 1; x->_mp_d = malloc (8); __CPROVER_assume (x->_mp_d != (void *) 0); V_setval (x, 0); }
 void free (void *);
